@@ -5,7 +5,8 @@
    entry used by two gates).  dL/d(cell c, slot s) = sum over the gates g referring to c of
         Re <phi| U_m ... (d_s U_g) ... U_1 |0..0>.
    Gate derivatives at grid angles are exact:  d rx = (-i/2) X rx,  d ry = (-i/2) Y ry,  d rz = (-i/2) Z rz,
-   d rzz = (-i/2) ZZ rzz,  and the three partials of u3 written out below.  The derivative of a controlled gate is the
+   d rzz = (-i/2) ZZ rzz,  the three partials of u3 written out below, and the fractional Grover oracle of numqi.query (a
+   user-registered parametrised gate whose backward pass is hand written in the gate class; derivative in units of pi).  The derivative of a controlled gate is the
    derivative block on the all-ones control subspace and ZERO elsewhere. *)
 EXTENDS Circuit
 MI == ONeg(OI)
@@ -20,13 +21,15 @@ DGate(g, s) ==
     [] g.op \in {"ry", "cry"} -> [m |-> OMatMul(DY, GRy(k).m), e |-> 4]
     [] g.op \in {"rz", "crz"} -> [m |-> OMatMul(DZ, GRz(k).m), e |-> 2]
     [] g.op = "rzz" -> [m |-> OMatMul(DZZ, GRzz(k).m), e |-> 2]
+    \* d/dtheta exp(-i pi theta) = -i pi exp(-i pi theta) on the marked amplitudes, zero elsewhere: stated IN UNITS OF pi
+    [] g.op = "foracle" -> [m |-> OracleDiag(Len(g.tg) \div 2, OMul(MI, OWPow(-k)), OZero), e |-> 0]
     [] g.op \in {"u3", "cu3"} ->
          LET p == g.par[2]  l == g.par[3]  c == C2(k)  sn == S2(k) IN
          CASE s = 1 -> [m |-> G1(ONeg(sn), ONeg(OMul(c, OWPow(l))), OMul(c, OWPow(p)), ONeg(OMul(sn, OWPow(p + l)))), e |-> 4]
            [] s = 2 -> [m |-> G1(OZero, OZero, OMul(OI, OMul(sn, OWPow(p))), OMul(OI, OMul(c, OWPow(p + l)))), e |-> 2]
            [] OTHER -> [m |-> G1(OZero, OMul(MI, OMul(sn, OWPow(l))), OZero, OMul(OI, OMul(c, OWPow(p + l)))), e |-> 2]
 NSlots(op) == IF op \in {"u3", "cu3"} THEN 3 ELSE 1
-IsParam(op) == op \in {"rx", "ry", "rz", "rzz", "u3", "crx", "cry", "crz", "cu3"}
+IsParam(op) == op \in {"rx", "ry", "rz", "rzz", "u3", "crx", "cry", "crz", "cu3", "foracle"}
 \* derivative operator applied to a vector: zero outside the all-ones control subspace
 ApplyD(v, U, tg, ctrl, n) ==
   LET K == 2^Len(tg) IN
